@@ -200,6 +200,7 @@ fn main() {
                 let fl = all[(k / 4) as usize % all.len()];
                 (fl.0.clone(), fl.1.clone(), corpus_ref.std.iter().filter(|s| s.0 != fl.0).cloned().collect())
               }
+              2 if k % 8 == 2 => ("Zoo".into(), vcore::exprgen::binder_zoo(&mut rng), corpus_ref.std.iter().cloned().collect()),
               2 => ("Gen".into(), vcore::exprgen::random_module(&mut rng), vec![]),
               _ => {
                 let pseed = seed.wrapping_mul(7919).wrapping_add(k);
